@@ -112,6 +112,9 @@ def build(job):
     if route == "from_dict":
         d = dict((l, _join(tp, r)) for l, r in zip(labels, rows))
         return cls.from_dict(d)
+    if route == "from_dict+sequence-objects":
+        # the dictionary's values are sequence OBJECTS of the general class (continuous data only: a sequence of numbers needs no alphabet)
+        return cls.from_dict(dict((l, dendropy.CharacterDataSequence(list(r))) for l, r in zip(labels, rows)))
     if route == "from_dict+case-sensitive-ns":
         # taxa added one by one to a case-sensitive namespace: labels that differ only in case are different taxa
         ns = dendropy.TaxonNamespace(is_case_sensitive=True)
@@ -188,6 +191,8 @@ def _nexml_pool(tp):
 
 def routes_for(tp):
     r = ["from_dict", "from_dict+extra-taxon", "concatenate", "export_indices", "export_subset"]
+    if tp == "continuous":
+        r.append("from_dict+sequence-objects")
     if tp in SUPPORT["nexus"]:
         r += ["parsed:nexus", "parsed:nexus-interleaved", "parsed:nexus-datablock"]
     r += ["parsed:phylip-relaxed", "parsed:phylip-strict", "parsed:phylip-relaxed-interleaved", "parsed:phylip-strict-interleaved"]
@@ -507,6 +512,10 @@ def jobs_datasets(tier):
                               "treelists": [{"ns": 0, "label": "tt", "n": 1}]})
                 # an unreferenced namespace in the middle/end
                 specs.append({"namespaces": nss, "matrices": [{"type": "dna", "ns": 0, "label": None, "salt": 3}], "treelists": [{"ns": 0, "label": None, "n": 1}]})
+                # the SAME data type on every namespace, and twice on the first (the matrices then share one state alphabet object)
+                for tp in ("dna", "protein", "standard"):
+                    specs.append({"namespaces": nss, "matrices": [{"type": tp, "ns": i, "label": "s%d" % i, "salt": i} for i in range(k)] +
+                                  [{"type": tp, "ns": 0, "label": "again", "salt": 5}], "treelists": tls[:1]})
                 # matrices only / trees only
                 specs.append({"namespaces": nss, "matrices": mats, "treelists": []})
                 specs.append({"namespaces": nss, "matrices": [], "treelists": tls})
